@@ -22,6 +22,8 @@ def carve_out(inp):
 
 
 def check(inp):
+    if inp.get("kind") == "generic":
+        return check_generic(inp)
     explicit = [(kw.get("format") or {}).get("function_suffix") for _, kw in inp["functions"]]
     explicit = [x for x in explicit if x]
     if len(set(explicit)) != len(explicit):
@@ -57,7 +59,55 @@ SIGS = ["void f(int a)", "void f(double a)", "void f(int a, int b)", "void f(int
 SUFFIXES = [None, "_1", "_0", "_int", "_2"]
 
 
+GEN_YAML = """library: gen
+cxx_header: gen.hpp
+declarations:
+- decl: void scale(double *x +rank(1), int n +implied(size(x)))
+  fortran_generic:
+%s
+- decl: void other(int a)
+"""
+
+
+def check_generic(inp):
+    """every fortran_generic entry is reachable under the documented generic name, even when there is only one"""
+    import argparse, contextlib, io, os, re, shutil, tempfile
+    from shroud import main as M
+    d = tempfile.mkdtemp(prefix="mgen_")
+    try:
+        f = os.path.join(d, "gen.yaml")
+        ents = "\n".join("  - decl: (%s *x +rank(1))\n    function_suffix: %s" % (t, sfx) for t, sfx in inp["entries"])
+        open(f, "w").write(GEN_YAML % ents)
+        a = argparse.Namespace(cmake="", cfiles="", ffiles="", filename=[f], outdir=d, logdir=d, outdir_c_fortran="", outdir_lua="",
+                               outdir_python="", outdir_yaml="", path=[], write_helpers="", write_statements="", yaml_types="",
+                               write_version=False, option=[], language=None)
+        try:
+            with contextlib.redirect_stdout(io.StringIO()):
+                M.main_with_args(a)
+        except (RuntimeError, SystemExit):
+            return None
+        text = open(os.path.join(d, "wrapfgen.f")).read().lower()
+        m = re.search(r'interface scale\b(.*?)end interface scale', text, re.S)
+        if not m:
+            return "no generic interface 'scale' in the Fortran module for fortran_generic %r" % (inp["entries"],)
+        procs = re.findall(r'module procedure (\w+)', m.group(1))
+        want = sorted("scale" + sfx for _, sfx in inp["entries"])
+        if sorted(procs) != want:
+            return "generic interface scale lists %r, expected exactly %r" % (sorted(procs), want)
+        return None
+    finally:
+        shutil.rmtree(d, ignore_errors=True)
+
+
 def candidates(seed, around=None):
+    yield {"kind": "generic", "entries": [["float", "_float"]]}
+    yield {"kind": "generic", "entries": [["float", "_float"], ["double", "_double"]]}
+    # default_arg_suffix lists: complete, one short, absent
+    for sfx in ([], ["_a"], ["_a", "_b"], ["_a", "_b", "_c"]):
+        yield {"functions": [["void step(int num, int offset = 0, int stride = 1)", {"default_arg_suffix": sfx}]],
+               "skip_known": bool(around and around.get("skip_known"))}
+        yield {"functions": [["void step(int num, int offset = 0)", {"default_arg_suffix": sfx}], ["void step(double x)", {}]],
+               "skip_known": bool(around and around.get("skip_known"))}
     for n in (2, 3):
         for sigs in itertools.combinations(SIGS, n):
             for sfx in itertools.product(SUFFIXES[:3], repeat=n):
